@@ -578,8 +578,8 @@ def sum_chains_program(draw: Callable) -> tuple[str, str]:
     stms = [c]
     if t.p(12):
         # three-place variant: an extra argument that consumers leave anonymous
-        stms = [f"{{ sh3(D,L,K) : psh(D,L), kind(K) }} 1 :- {body}."]
-        stms.append(t.one(["cost(X) :- X = #sum{ L,D : sh3(D,L,_) }.", ":~ sh3(D,L,_). [L@0,D]", "cost(X) :- X = #sum{ L,D,K : sh3(D,L,K) }.", "cost(D,X) :- X = #sum{ L : sh3(D,L,_) }, day(D).", "#minimize{ L,D : sh3(D,L,foo) }."]))
+        stms = [t.one([f"{{ sh3(D,L,K) : psh(D,L), kind(K) }} 1 :- {body}.", f"{{ sh3(D,L,foo) : psh(D,L) }} 1 :- {body}.", f"{{ sh3(D,L,foo) : psh(D,L) }} 1 :- {body}.", f"{{ sh3(D,L,D) : psh(D,L) }} 1 :- {body}."])]
+        stms.append(t.one(["cost(X) :- X = #sum{ L,D : sh3(D,L,_) }.", ":~ sh3(D,L,_). [L@0,D]", "cost(X) :- X = #sum{ L,D,K : sh3(D,L,K) }.", "cost(D,X) :- X = #sum{ L : sh3(D,L,_) }, day(D).", "#minimize{ L,D : sh3(D,L,foo) }.", "cost(X) :- X = #sum{ L,D : sh3(D,L,foo) }."]))
         return "\n".join(stms), "sum:threeplace"
     if t.p(15):
         stms.append(t.one(["sh(D,L) :- fix(D,L).", "sh(D,1) :- day(D), force(D)."]))
@@ -610,8 +610,8 @@ def sum_chains_program(draw: Callable) -> tuple[str, str]:
             names.append("sibling")
         else:
             stms.append(f":- day(D), #sum{{ L : sh(D,L) }} {t.op()} {t.num(0, 4)}.")
-    if t.p(20):
-        stms.append(":~ bonus(D,L). [L@0,D]")
+    if t.p(35):
+        stms.append(t.one([":~ bonus(D,L). [L@0,D]", ":~ bonus(D,L). [L@1,D]", "#minimize{ L,D : bonus(D,L) }.", ":~ bonus(D,L). [-L@0,D]", "#maximize{ L@1,D : bonus(D,L) }."]))
         names.append("other_objective")
     if t.p(20):
         stms.append(t.one(["psh(D,L) :- day(D), lv(L).", "day(1..2).", "lv(0..2)."]))
